@@ -194,6 +194,10 @@ func (ns *Namespace) UnmarshalYAML(value *yaml.Node) error {
 		typeNode := value.Content[i+1]
 
 		meta := &DefinitionMeta{}
+		if nameNode.Tag != "!!str" {
+			// e.g. a `null:` key: the decoder would set meta to nil without calling UnmarshalYAML
+			return parseError(nameNode, "the name of a type is required to be a string")
+		}
 		if err := nameNode.DecodeWithOptions(&meta, yaml.DecodeOptions{KnownFields: true}); err != nil {
 			return err
 		}
